@@ -218,6 +218,18 @@ case("c20_dup_bounds_two_attrs", "C20", "R20.4", "fail", """
 #[derive(TypeInfo)] #[scale_info(bounds(T: TypeInfo + 'static))] #[scale_info(bounds(T: TypeInfo + 'static))] struct S<T> { a: T }
 fn main() {}
 """, twin="c20_derive_twin", about="repeated bounds across two attributes")
+case("c20_dup_skip_two_attrs", "C20", "R20.4", "fail", """
+#[derive(TypeInfo)] #[scale_info(skip_type_params(T))] #[scale_info(skip_type_params(T))] struct S<T> { m: PhantomData<T> }
+fn main() {}
+""", twin="c20_derive_twin", about="repeated skip_type_params across two attributes")
+case("c20_dup_crate_two_attrs", "C20", "R20.4", "fail", """
+#[derive(TypeInfo)] #[scale_info(crate = info)] #[scale_info(crate = info)] struct S { a: u8 }
+fn main() {}
+""", twin="c20_derive_twin", about="repeated crate attribute across two attributes")
+case("c20_dup_capture_docs_two_attrs", "C20", "R20.4", "fail", """
+#[derive(TypeInfo)] #[scale_info(capture_docs = "always")] #[scale_info(capture_docs = "never")] struct S { a: u8 }
+fn main() {}
+""", twin="c20_derive_twin", about="repeated capture_docs across two attributes")
 case("c20_dup_skip", "C20", "R20.4", "fail", """
 #[derive(TypeInfo)] #[scale_info(skip_type_params(T), skip_type_params(T))] struct S<T> { m: PhantomData<T> }
 fn main() {}
